@@ -1,4 +1,5 @@
 """Regex subset shared with lean/TbotVerif/Base/Re.lean: trees, Python source, wire form."""
+# (classes, sequence, alternation, bounded repetition, \\Z, positive look-ahead)
 import re, zlib
 
 
@@ -62,6 +63,14 @@ class Rep(Re):
     def py(self): return b"(?:" + self.r.py() + b"){%d,%d}" % (self.lo, self.hi)
     def wire(self): return "R%04x%04x" % (self.lo, self.hi) + self.r.wire()
     def nullable(self): return self.lo == 0 or self.r.nullable()
+
+
+class La(Re):
+    """positive look-ahead `(?=r)`: consumes nothing; CPython counts it as width 0"""
+    def __init__(self, r): self.r = r
+    def py(self): return b"(?=" + self.r.py() + b")"
+    def wire(self): return "P" + self.r.wire()
+    def nullable(self): return True
 
 
 def sample(r: Re, rng) -> bytes:
@@ -143,12 +152,14 @@ def fold(r: Re) -> Re:
         return Alt(fold(r.a), fold(r.b))
     if isinstance(r, Rep):
         return Rep(fold(r.r), r.lo, r.hi)
+    if isinstance(r, La):
+        return La(fold(r.r))
     return r
 
 
 def fold_field(f: str) -> str:
     """wire field `I<regex>` (compiled with re.IGNORECASE by the harness) -> `X<folded regex>` for the Lean side"""
-    return "X" + fold(parse_wire(f[1:])).wire() if f[:1] == "I" and len(f) > 1 and f[1] in "EZSARC" else f
+    return "X" + fold(parse_wire(f[1:])).wire() if f[:1] == "I" and len(f) > 1 and f[1] in "EZSARCP" else f
 
 
 class Pat:
@@ -199,6 +210,8 @@ def parse_wire(s: str) -> Re:
             a = rd(); b = rd(); return Seq(a, b)
         if c == "A":
             a = rd(); b = rd(); return Alt(a, b)
+        if c == "P":
+            return La(rd())
         if c == "R":
             lo = int(s[pos:pos + 4], 16); hi = int(s[pos + 4:pos + 8], 16); pos += 8
             return Rep(rd(), lo, hi)
